@@ -6,8 +6,9 @@
 
   Repaired defects are parameters (`TParams`) so that the behaviour of the pinned tree
   stays expressible for the negation theorems:
-    * `wakeWriterFixed` : the ACK path's `was_writeable` test (pinned tree: inverted, so a
-      blocked writer is only woken by an ACK that arrives when it is no longer blocked);
+    * `wakeWriterFixed` : the ACK path wakes a pending writer whenever the window has room
+      (pinned tree: only when `in flight + mss > cwnd` did NOT hold before the ACK, so a
+      blocked writer was only woken by an ACK that arrived when it was no longer blocked);
     * `wakeReaderFixed` : `maybe_wakeup_reader` wakes whenever data is queued (pinned tree:
       only when the queue length became exactly 1);
     * `releaseOnDrop`   : `packet_dropped` releases the segment's in-flight bytes;
@@ -322,7 +323,7 @@ def TcpSock.asyncReadImpl (s : TcpSock) (op : ReadOp) : TcpSock × List NEff :=
   match r with
   | .error .wouldBlock => ({ s with recvH := some op, recvNull := false }, [])
   | .error e => ({ s1 with recvH := none }, [.post { h := op.h, ec := e, extra := "n=0 data=-" }])
-  | .ok data => ({ s1 with recvH := none }, [.post { h := op.h, ec := .ok, extra := readExtra data }])
+  | .ok data => ({ s1 with recvH := none }, [.post { h := op.h, ec := .ok, extra := readExtra data, data := data }])
 
 /-- `async_wait_read_impl(handler)` -/
 def TcpSock.asyncWaitReadImpl (s : TcpSock) (h : Nat) : TcpSock × List NEff :=
@@ -368,7 +369,7 @@ def NetSt.tcpAckPost (tp : TParams) (n : NetSt) (name : String) (wasBlocked : Bo
     let s := { s with cwnd := s.cwnd + s.mss * acked / s.cwnd }
     let writeable := decide (s.inFlight + (s.mss : Int) ≤ (s.cwnd : Int))
     -- pinned tree: `!was_writeable && is_writeable` with was_writeable = "was blocked"
-    let wake := if tp.wakeWriterFixed then wasBlocked && writeable else !wasBlocked && writeable
+    let wake := if tp.wakeWriterFixed then writeable else !wasBlocked && writeable
     (n.setTcp name s, wake)
 
 /-- release the reorder buffer into the incoming queue while the next number is present -/
